@@ -1985,6 +1985,7 @@ pub fn run(args: &Args) {
             // a stack overflow (unbounded cascade) kills the process: leave the culprit in a file
             let _ = std::fs::write(args.out.join("reactive.current"), &line);
         }
+        begin_case(&line);
         let r = run_case(ops);
         for f in &r.flags {
             sink.count(&format!("flag:{f}"));
